@@ -59,6 +59,7 @@ struct Profile {
     bool thorough{false};
     bool judge_history{true};  // linearizability, value sanity, range-read consistency
     bool judge_quiescent{true}; // coherence of access paths + structure at quiescence
+    bool force_templates{false}; // enumeration stages: always build the scenario from the race templates
     bool cursor_skip_reads{true}; // keys passed over by a cursor count as 'absent' pseudo-reads (C10's no-skip clause)
 };
 
@@ -75,7 +76,7 @@ inline Profile make_profile(const std::string& prop, const std::string& tier) {
         p.scanner_thread = true;
         p.max_threads = 4;
     } else if (prop == "C06") {
-        p.w_get = 0;
+        p.w_get = 3; // get-miss with checked_version is the point-read form of the same guarantee
         p.w_scan = 6;
         p.scanner_thread = true;
         p.inserters_only_new_keys = true;
@@ -150,6 +151,7 @@ struct Scenario {
     std::vector<std::string> init_keys;
     std::map<std::string, std::uint32_t> init_val;
     bool emptied{false};
+    std::vector<std::string> pre_removed; // inserted and removed again during setup (sparse shapes: borders with one or two keys)
     std::vector<std::string> hot;
     std::vector<std::vector<Op>> threads;
     std::uint32_t max_id{0};
@@ -158,6 +160,7 @@ struct Scenario {
     std::string text() const {
         std::ostringstream ss;
         ss << "shape=" << family << " prefix=\"" << show(prefix) << "\" init_keys=" << init_keys.size() << (emptied ? " (all removed again)" : "")
+           << (pre_removed.empty() ? "" : " (+" + std::to_string(pre_removed.size()) + " inserted and removed again)")
            << " hot=[";
         for (auto& h : hot) { ss << "\"" << show(h) << "\" "; }
         ss << "]\n";
@@ -232,7 +235,8 @@ inline bool start_tuple_conflict(const Scenario& s, const Op& o, const std::stri
 inline Scenario decode(Chooser& c, const Profile& pf, vf::Stats& st, bool record) {
     Scenario s;
     // ---- shape
-    unsigned fam = static_cast<unsigned>(c.weighted({2, 2, 3, 4, 4, static_cast<unsigned>(pf.thorough ? 1 : 0), 1}));
+    unsigned fam = static_cast<unsigned>(c.weighted({2, 2, 3, 4, 4, static_cast<unsigned>(pf.thorough ? 1 : 0), 1, 4}));
+    bool sparse = false;
     unsigned n = 0;
     switch (fam) {
         case 0: n = 0; s.family = "empty"; break;
@@ -241,7 +245,8 @@ inline Scenario decode(Chooser& c, const Profile& pf, vf::Stats& st, bool record
         case 3: n = 15; s.family = "full_border"; break;
         case 4: n = 16 + c.range(0, 44); s.family = "multi_border"; break;
         case 5: n = 250; s.family = "two_interior_levels"; break;
-        default: n = 1 + c.range(0, 20); s.emptied = true; s.family = "emptied";
+        case 6: n = 1 + c.range(0, 20); s.emptied = true; s.family = "emptied"; break;
+        default: n = 24 + c.range(0, 40); sparse = true; s.family = "sparse_borders";
     }
     unsigned depth = static_cast<unsigned>(c.weighted({5, 3, 1}));
     for (unsigned d = 0; d < depth; ++d) { s.prefix += vf::slice_pool()[c.range(0, 5)]; }
@@ -255,6 +260,19 @@ inline Scenario decode(Chooser& c, const Profile& pf, vf::Stats& st, bool record
     }
     unsigned width = n > 120 ? 2 : 1;
     for (unsigned i = 0; i < n; ++i) { s.init_keys.push_back(ctr_key(s.prefix, 2 * i + 1, width)); }
+    if (sparse) {
+        // ascending inserts give borders of 8 keys; keep one (sometimes two) per border so that a single remove empties and
+        // unlinks a border and neighbouring unlinks / splits race with few operations
+        std::vector<std::string> kept;
+        unsigned keep2 = c.range(0, 2);
+        for (unsigned i = 0; i < n; ++i) {
+            bool keep = i % 8 == 0 || (keep2 == 1 && i % 8 == 1) || (keep2 == 2 && i % 16 == 9);
+            (keep ? kept : s.pre_removed).push_back(s.init_keys[i]);
+        }
+        s.init_keys = kept;
+        n = static_cast<unsigned>(kept.size());
+    }
+    const std::vector<std::string> layer_keys = s.init_keys;
     // optional siblings in the upper layer (so that the root border of layer 0 holds several entries)
     if (depth > 0 && c.chance(1, 3)) {
         unsigned sib = c.flip() ? 14 : 1 + c.range(0, 5);
@@ -265,7 +283,7 @@ inline Scenario decode(Chooser& c, const Profile& pf, vf::Stats& st, bool record
     for (auto& k : s.init_keys) { s.init_val[k] = id++; }
     // ---- hot keys
     unsigned nhot = 1 + static_cast<unsigned>(c.weighted({2, 4, 3, 2}));
-    auto present_at = [&](unsigned r) { return ctr_key(s.prefix, 2 * r + 1, width); };
+    auto present_at = [&](unsigned r) { return layer_keys[r % layer_keys.size()]; };
     for (unsigned i = 0; i < nhot; ++i) {
         std::string k;
         unsigned kind = static_cast<unsigned>(c.weighted({n == 0 ? 0U : 5U, 4, 2, 1}));
@@ -283,6 +301,10 @@ inline Scenario decode(Chooser& c, const Profile& pf, vf::Stats& st, bool record
                 break;
             }
             case 1: { // absent key between / before / after the stored keys (same border fan-out)
+                if (!s.pre_removed.empty() && c.chance(2, 3)) {
+                    k = s.pre_removed[c.range(0, static_cast<std::uint32_t>(s.pre_removed.size() - 1))];
+                    break;
+                }
                 unsigned pos = c.range(0, n);
                 if (c.chance(1, 4)) { pos = n; }
                 k = ctr_key(s.prefix, 2 * pos, width);
@@ -349,7 +371,134 @@ inline Scenario decode(Chooser& c, const Profile& pf, vf::Stats& st, bool record
             }
         }
     };
-    for (unsigned t = 0; t < nt; ++t) {
+    // ---- churn: every thread owns a share of the 16-24 stored keys, removes all of them and inserts them again (the pattern of the
+    // project's multi_thread_put_delete_* tests): borders are emptied and unlinked, the interior root collapses and the tree is rebuilt
+    // while the other threads do the same
+    bool churn = false;
+    if (!pf.scanner_thread && !pf.inserters_only_new_keys && !pf.force_templates && pf.w_remove > 0 && (fam == 4 || fam == 7) && c.chance(1, 2)) {
+        churn = true;
+        std::vector<std::string> keys = layer_keys;
+        if (keys.size() > 24) { keys.resize(24); }
+        nt = 2 + c.range(0, pf.max_threads - 2);
+        s.threads.assign(nt, {});
+        for (unsigned t = 0; t < nt; ++t) {
+            std::vector<std::string> own;
+            for (std::size_t i = t; i < keys.size(); i += nt) { own.push_back(keys[i]); }
+            if (c.flip()) { std::reverse(own.begin(), own.end()); }
+            unsigned rounds = 1 + c.range(0, 1);
+            for (unsigned r0 = 0; r0 < rounds; ++r0) {
+                for (auto& k : own) {
+                    Op o;
+                    o.kind = OpK::Remove;
+                    o.key = k;
+                    s.threads[t].push_back(o);
+                }
+                if (pf.w_scan > 0 && c.chance(1, 3)) {
+                    Op o;
+                    o.kind = OpK::Scan;
+                    s.threads[t].push_back(o);
+                }
+                for (auto& k : own) {
+                    Op o;
+                    o.kind = OpK::Put;
+                    o.key = k;
+                    o.wid = id++;
+                    s.threads[t].push_back(o);
+                }
+            }
+        }
+        s.family += "+churn";
+    }
+    // ---- race templates: a reader / point op on a stored key K against a writer sequence that frees, re-uses, splits or unlinks
+    // exactly the slot / border of K (K2 = absent neighbour of K in the same border)
+    bool templated = false;
+    if (!churn && !pf.inserters_only_new_keys && (pf.force_templates || c.chance(1, 3))) {
+        templated = true;
+        unsigned r = n == 0 ? 0 : c.range(0, n - 1);
+        if (n != 0 && c.chance(1, 3)) { r = c.flip() ? 0 : n - 1; }
+        std::string K = n == 0 ? ctr_key(s.prefix, 1, width) : present_at(r);
+        std::string K2 = ctr_key(s.prefix, 2 * r + (c.flip() ? 0 : 2), width);
+        if (sparse && !s.pre_removed.empty()) {
+            // K's neighbours in key order: the next kept key (its border is K's right sibling) or a removed key of K's own border
+            K2 = c.flip() ? present_at(r + 1) : s.pre_removed[c.range(0, static_cast<std::uint32_t>(s.pre_removed.size() - 1))];
+        }
+        std::string K3 = K;
+        K3.resize(s.prefix.size() + 8, 'x');
+        K3 += "1"; // a key below K's slice: needs a new layer
+        s.threads.assign(2, {});
+        auto point = [&](OpK k, const std::string& key) {
+            Op o;
+            o.kind = k;
+            o.key = key;
+            if (k == OpK::Put || k == OpK::PutUnique) { o.wid = id++; }
+            return o;
+        };
+        // thread 0
+        if (pf.scanner_thread || (pf.w_scan + pf.w_cursor > 0 && c.chance(1, 3))) {
+            Op o;
+            gen_range_op(o, pf.w_cursor > pf.w_scan ? true : (pf.w_cursor == 0 ? false : c.flip()));
+            s.threads[0].push_back(o);
+        } else {
+            switch (c.weighted({pf.w_get * 3, pf.w_put, pf.w_put_unique, pf.w_remove})) {
+                case 0: s.threads[0].push_back(point(OpK::Get, K)); break;
+                case 1: s.threads[0].push_back(point(OpK::Put, K)); break;
+                case 2: s.threads[0].push_back(point(OpK::PutUnique, c.flip() ? K : K2)); break;
+                default: s.threads[0].push_back(point(OpK::Remove, K));
+            }
+            if (c.chance(1, 3)) { s.threads[0].push_back(point(OpK::Get, c.flip() ? K : K2)); }
+        }
+        // thread 1
+        switch (c.range(0, 9)) {
+            case 0:
+                s.threads[1].push_back(point(OpK::Remove, K));
+                s.threads[1].push_back(point(OpK::Put, K2)); // takes the slot K just freed
+                break;
+            case 1:
+                s.threads[1].push_back(point(OpK::Remove, K));
+                s.threads[1].push_back(point(OpK::Put, K));
+                break;
+            case 2: s.threads[1].push_back(point(OpK::Put, K2)); break; // splits a full border
+            case 3: s.threads[1].push_back(point(OpK::Remove, K)); break;
+            case 4: s.threads[1].push_back(point(OpK::Put, K)); break;
+            case 5:
+                s.threads[1].push_back(point(OpK::Remove, K));
+                s.threads[1].push_back(point(OpK::Put, K3)); // the freed slot becomes a link
+                break;
+            case 6:
+                s.threads[1].push_back(point(OpK::Put, K3));
+                s.threads[1].push_back(point(OpK::Remove, K3)); // creates and unlinks a next layer
+                break;
+            case 7:
+                s.threads[1].push_back(point(OpK::Put, K2));
+                s.threads[1].push_back(point(OpK::Remove, K2));
+                break;
+            case 8:
+                s.threads[1].push_back(point(OpK::PutUnique, K2));
+                s.threads[1].push_back(point(OpK::Remove, K));
+                break;
+            default:
+                s.threads[1].push_back(point(OpK::Remove, K));
+                s.threads[1].push_back(point(OpK::PutUnique, K));
+        }
+        if (pf.w_remove == 0) {
+            for (auto& o : s.threads[1]) {
+                if (o.kind == OpK::Remove) {
+                    o.kind = OpK::Put;
+                    o.wid = id++;
+                }
+            }
+        }
+        s.family += "+template";
+        for (auto* k : {&K, &K2, &K3}) {
+            if (std::find(s.hot.begin(), s.hot.end(), *k) == s.hot.end()) { s.hot.push_back(*k); }
+        }
+        // optionally a third, freely generated thread
+        if (!pf.force_templates && pf.max_threads >= 3 && c.chance(1, 3)) {
+            s.threads.resize(3);
+        }
+        nt = static_cast<unsigned>(s.threads.size());
+    }
+    for (unsigned t = churn ? nt : (templated ? 2 : 0); t < nt; ++t) {
         unsigned nops = 1 + c.range(0, pf.max_ops - 1);
         bool reader = pf.scanner_thread && t == 0;
         for (unsigned i = 0; i < nops; ++i) {
@@ -421,9 +570,16 @@ struct Exec {
     std::vector<std::vector<HOp>> hist;        // per thread
     std::vector<std::vector<ScanRecord>> scans; // per thread
     std::vector<std::string> errors;            // per-thread immediate failures (statuses that are never legal)
+    struct MissRec {
+        int thread;
+        std::string key;
+        std::pair<node_version64_body, node_version64*> cv;
+        std::uint64_t inv, resp;
+    };
+    std::vector<std::vector<MissRec>> misses; // get-miss with checked_version, per thread
     sched::Scheduler& S;
 
-    explicit Exec(const Scenario& s) : sc(s), hist(s.threads.size()), scans(s.threads.size()), errors(s.threads.size()), S(sched::Scheduler::get()) {}
+    explicit Exec(const Scenario& s) : sc(s), hist(s.threads.size()), scans(s.threads.size()), errors(s.threads.size()), misses(s.threads.size()), S(sched::Scheduler::get()) {}
 
     void body(std::size_t t) {
         Token tok{};
@@ -459,9 +615,11 @@ struct Exec {
                     h.kind = HKind::Get;
                     h.key = o.key;
                     std::pair<char*, std::size_t> out{nullptr, 0};
+                    std::pair<node_version64_body, node_version64*> cv{};
                     h.inv = S.now();
-                    status rc = get<char>("s", o.key, out);
+                    status rc = get<char>("s", o.key, out, &cv);
                     h.resp = S.now();
+                    if (rc == status::WARN_NOT_EXIST) { misses[t].push_back({static_cast<int>(t), o.key, cv, h.inv, h.resp}); }
                     if (rc == status::OK) {
                         h.res = HRes::Ok;
                         sched::NoYield g;
@@ -575,17 +733,9 @@ inline void reset_library() {
     }
 }
 
-inline vf::CaseResult run_case(const vf::RunnerArgs& args, const std::vector<std::uint8_t>& bytes, bool record, vf::Stats& st) {
-    static Profile pf;
-    static std::string pf_key;
-    if (pf_key != args.prop + "/" + args.tier) {
-        pf = make_profile(args.prop, args.tier);
-        pf_key = args.prop + "/" + args.tier;
-    }
+// execute one scenario under the schedule given by `bytes` (or by Scheduler::script when use_script is set) and judge it
+inline vf::CaseResult run_scenario(const Profile& pf, const Scenario& sc, const std::vector<std::uint8_t>& bytes, bool record, vf::Stats& st) {
     vf::CaseResult res;
-    Chooser c(bytes);
-    g_varied_lengths = pf.prop == "C15";
-    Scenario sc = decode(c, pf, st, record);
     auto& S = sched::Scheduler::get();
     std::string trace_note;
     try {
@@ -600,6 +750,16 @@ inline vf::CaseResult run_case(const vf::RunnerArgs& args, const std::vector<std
             }
             if (sc.emptied) {
                 for (auto& k : sc.init_keys) { remove(tok, "s", k); }
+            }
+            if (!sc.pre_removed.empty()) {
+                // build the dense tree in key order first, then thin it out
+                std::vector<std::string> all = sc.pre_removed;
+                std::string v = value_of(1);
+                std::sort(all.begin(), all.end());
+                for (auto& k : all) {
+                    if (put<char>(tok, "s", k, v.data(), v.size()) != status::OK) { throw Fail{"harness", "setup put failed"}; }
+                }
+                for (auto& k : sc.pre_removed) { remove(tok, "s", k); }
             }
             leave(tok);
         }
@@ -828,6 +988,34 @@ inline vf::CaseResult run_case(const vf::RunnerArgs& args, const std::vector<std
                 }
             }
         }
+        // ---- C05/C06 for point reads: a get that reported WARN_NOT_EXIST with a checked version; if the key was inserted afterwards
+        // (exactly one successful insert, never removed, present at the end) the recorded (version,node) pair must be stale
+        if (pf.prop == "C06") {
+            for (auto& per_thread : ex.misses) {
+                for (auto& m : per_thread) {
+                    if (initial.count(m.key) != 0) { continue; }
+                    unsigned puts_ok = 0;
+                    unsigned removes = 0;
+                    bool put_before = false;
+                    for (auto& h : history) {
+                        if (h.key != m.key) { continue; }
+                        if ((h.kind == HKind::Put || h.kind == HKind::PutUnique) && h.res == HRes::Ok) {
+                            ++puts_ok;
+                            if (h.resp < m.inv) { put_before = true; }
+                        }
+                        if (h.kind == HKind::Remove) { ++removes; }
+                    }
+                    if (puts_ok != 1 || removes != 0 || put_before || final_state.count(m.key) == 0) { continue; }
+                    ++st.checks;
+                    if (m.cv.second == nullptr) { failx("get_miss_without_version", "get(\"" + show(m.key) + "\") reported WARN_NOT_EXIST without a checked version"); }
+                    insert_overlapped_scan = true;
+                    if (m.cv.second->get_stable_version() == m.cv.first) {
+                        failx("get_miss_insert_undetected", "get(\"" + show(m.key) + "\") of T" + std::to_string(m.thread) +
+                                                                    " reported WARN_NOT_EXIST, the key was inserted afterwards, but the checked (version,node) pair is unchanged");
+                    }
+                }
+            }
+        }
         // ---- linearizability of every key (point ops + pseudo-reads + final state)
         std::string bad_key;
         std::string lz = pf.judge_history ? vf::check_history(history, initial, &bad_key) : std::string();
@@ -918,8 +1106,80 @@ inline vf::CaseResult run_case(const vf::RunnerArgs& args, const std::vector<std
         res.pass = false;
         res.signature = f.signature;
         res.message = f.message;
+    } catch (const std::exception& e) {
+        res.pass = false;
+        res.signature = "uncaught_exception";
+        res.message = std::string("an exception escaped from the library: ") + e.what() + "\n--- scenario ---\n" + sc.text();
     }
     reset_library();
+    return res;
+}
+
+inline vf::CaseResult run_case(const vf::RunnerArgs& args, const std::vector<std::uint8_t>& bytes, bool record, vf::Stats& st) {
+    static Profile pf;
+    static std::string pf_key;
+    if (pf_key != args.prop + "/" + args.tier + "/" + args.extra) {
+        pf = make_profile(args.prop, args.tier);
+        if (args.extra == "enum1" || args.extra == "enum2") {
+            // bounded-exhaustive stage: two threads, few ops, every schedule with <= 1 (enum1) / <= 2 (enum2) preemptions
+            pf.min_threads = pf.max_threads = 2;
+            pf.max_ops = 2;
+            pf.force_templates = true;
+        }
+        pf_key = args.prop + "/" + args.tier + "/" + args.extra;
+    }
+    Chooser c(bytes);
+    g_varied_lengths = pf.prop == "C15";
+    Scenario sc = decode(c, pf, st, record);
+    auto& S = sched::Scheduler::get();
+    if (args.extra != "enum1" && args.extra != "enum2") {
+        S.use_script = false;
+        return run_scenario(pf, sc, bytes, record, st);
+    }
+    // ---- enumeration: solo runs measure the number of yield points of each thread when it runs first
+    vf::CaseResult res;
+    S.use_script = true;
+    std::uint64_t solo[2] = {0, 0};
+    for (int first = 0; first < 2; ++first) {
+        S.script.clear();
+        S.script_first = first;
+        res = run_scenario(pf, sc, bytes, record, st);
+        if (!res.pass || res.inconclusive) {
+            S.use_script = false;
+            return res;
+        }
+        solo[first] = S.yields_of(static_cast<std::size_t>(first));
+    }
+    const bool two = args.extra == "enum2";
+    for (int first = 0; first < 2 && res.pass; ++first) {
+        const int other = 1 - first;
+        for (std::uint64_t p = 1; p <= solo[first] && res.pass; ++p) {
+            S.script = {{p, other}};
+            S.script_first = first;
+            res = run_scenario(pf, sc, bytes, record, st);
+            if (record) { ++st.evaluations; }
+            if (!res.pass) {
+                res.message = "schedule: T" + std::to_string(first) + " runs " + std::to_string(p) + " steps, then T" + std::to_string(other) +
+                              " runs to completion, then T" + std::to_string(first) + " continues\n" + res.message;
+                break;
+            }
+            if (!two) { continue; }
+            // second preemption: the other thread is interrupted after q of its steps and the first one continues
+            const std::uint64_t lim = solo[other] < 40 ? solo[other] : 40;
+            for (std::uint64_t q = 1; q <= lim && res.pass; ++q) {
+                S.script = {{p, other}, {p + q, first}};
+                S.script_first = first;
+                res = run_scenario(pf, sc, bytes, record, st);
+                if (record) { ++st.evaluations; }
+                if (!res.pass) {
+                    res.message = "schedule: T" + std::to_string(first) + " runs " + std::to_string(p) + " steps, T" + std::to_string(other) + " runs " +
+                                  std::to_string(q) + " steps, T" + std::to_string(first) + " continues to its end, then T" + std::to_string(other) + "\n" + res.message;
+                }
+            }
+        }
+    }
+    S.use_script = false;
+    S.script.clear();
     return res;
 }
 
